@@ -810,3 +810,28 @@ Proof.
   split; [vm_compute; discriminate|]. split; [repeat constructor|].
   split; [vm_compute; discriminate|]. split; [vm_compute; discriminate|]. vm_compute. reflexivity.
 Qed.
+
+Lemma merged_or_not_sb mrg : dsb mrg = 16.
+Proof. destruct mrg; reflexivity. Qed.
+
+(* ------------------------------------------------------------------ G. the range_limit[] subscripts of the inverse conversion stay in the
+   part of the table of jdmaster.c prepare_range_limit_table that is a clamp: [-(MAX+1), 2*(MAX+1)+CENTER) *)
+Lemma decode_index_in_clamp_range p mrg : p = prec8 \/ p = prec12 -> forall y cb cr,
+  0 <= y <= sp_max p -> 0 <= cb <= sp_max p -> 0 <= cr <= sp_max p ->
+  let ch := chroma p mrg cb cr in
+  - (sp_max p + 1) <= y + c0 ch < 2 * (sp_max p + 1) + sp_center p /\
+  - (sp_max p + 1) <= y + c1 ch < 2 * (sp_max p + 1) + sp_center p /\
+  - (sp_max p + 1) <= y + c2 ch < 2 * (sp_max p + 1) + sp_center p.
+Proof.
+  intros Hp y cb cr Hy Hcb Hcr. cbv zeta. unfold chroma, c0, c1, c2, Cr_r, Cb_b, Cr_g, Cb_g. cbn [fst snd].
+  rewrite !merged_or_not_sb. destruct mrg.
+  all: rewrite !Z.shiftr_div_pow2 by (vm_compute; discriminate).
+  all: change (2 ^ 16) with 65536; change (2 ^ (16 - 1)) with 32768.
+  all: repeat match goal with
+         | |- context [dfix ?m ?k] => let v := eval vm_compute in (dfix m k) in change (dfix m k) with v
+         end.
+  all: destruct Hp as [-> | ->];
+    change (sp_max prec8) with 255 in *; change (sp_max prec12) with 4095 in *;
+    change (sp_center prec8) with 128; change (sp_center prec12) with 2048;
+    repeat split; Z.div_mod_to_equations; lia.
+Qed.
